@@ -59,9 +59,58 @@ func c08FlagsWire(fl string) string {
 	return "(" + strings.Join(out, " ") + ")"
 }
 
-func c08Uid(u string) string {
+// c08Speller spells command words (command names, UID, RETURN) in upper, lower or mixed case: IMAP
+// command names are case-insensitive. The spelling is a function of the op token's text alone, so a
+// recorded or minimised history replays with the same bytes; tokens, tokenizer, model and oracle stay
+// keyed on the canonical (upper-case) name.
+type c08Speller struct {
+	h    uint64
+	mode string
+}
+
+func c08NewSpeller(tok string) *c08Speller {
+	h := uint64(14695981039346656037)
+	for i := 0; i < len(tok); i++ {
+		h = (h ^ uint64(tok[i])) * 1099511628211
+	}
+	h ^= h >> 29
+	sp := &c08Speller{h: h}
+	switch h % 5 {
+	case 0, 1:
+		sp.mode = "upper"
+	case 2:
+		sp.mode = "lower"
+	default:
+		sp.mode = "mixed"
+	}
+	return sp
+}
+
+func (sp *c08Speller) w(word string) string {
+	switch sp.mode {
+	case "upper":
+		return word
+	case "lower":
+		return strings.ToLower(word)
+	}
+	b := []byte(word)
+	lowered := false
+	for i := range b {
+		sp.h = sp.h*6364136223846793005 + 1442695040888963407
+		if (sp.h>>33)&1 == 1 && b[i] >= 'A' && b[i] <= 'Z' {
+			b[i] += 'a' - 'A'
+			lowered = true
+		}
+	}
+	if !lowered && len(b) > 0 && b[0] >= 'A' && b[0] <= 'Z' {
+		b[0] += 'a' - 'A' // "mixed" never degenerates into the all-upper spelling
+	}
+	return string(b)
+}
+
+func (sp *c08Speller) uid(u string) string {
 	if u == "1" {
-		return "UID "
+		return sp.w("UID") + " "
 	}
 	return ""
 }
@@ -150,6 +199,7 @@ func (r *c08Run) exec(tok string) string {
 	}
 	rc := r.env.conns[c]
 	kind, a := f[1], f[2:]
+	sp := c08NewSpeller(tok)
 	// an idling connection is only ever sent DONE, and DONE only goes to an idling connection
 	if r.idle[c] != (kind == "D") {
 		return "-"
@@ -158,6 +208,9 @@ func (r *c08Run) exec(tok string) string {
 		resp := r.env.msExec(rc, text)
 		r.track(c, resp)
 		return resp
+	}
+	if kind != "D" && kind != "I" {
+		r.counts = append(r.counts, "spelling:"+sp.mode)
 	}
 	mb := func(s string) string {
 		i, _ := strconv.Atoi(s)
@@ -169,7 +222,7 @@ func (r *c08Run) exec(tok string) string {
 	switch kind {
 	case "A":
 		tag := r.env.tag()
-		rc.send(fmt.Sprintf("%s APPEND %s %s {%d}\r\n", tag, mb(a[0]), c08FlagsWire(a[1]), len(c08Msg)))
+		rc.send(fmt.Sprintf("%s %s %s %s {%d}\r\n", tag, sp.w("APPEND"), mb(a[0]), c08FlagsWire(a[1]), len(c08Msg)))
 		l, err := msReadLine(rc)
 		if err != nil {
 			return "PANIC"
@@ -183,7 +236,7 @@ func (r *c08Run) exec(tok string) string {
 		return resp
 	case "S":
 		r.cnt[c] = 0
-		resp := run("SELECT " + mb(a[0]))
+		resp := run(sp.w("SELECT") + " " + mb(a[0]))
 		if strings.HasPrefix(resp, "OK") {
 			r.sel[c], _ = strconv.Atoi(a[0])
 		} else {
@@ -195,7 +248,7 @@ func (r *c08Run) exec(tok string) string {
 		if kind == "U" {
 			text = "UNSELECT"
 		}
-		resp := run(text)
+		resp := run(sp.w(text))
 		if strings.HasPrefix(resp, "OK") {
 			r.sel[c] = -1
 			r.cnt[c] = 0
@@ -207,18 +260,18 @@ func (r *c08Run) exec(tok string) string {
 		if a[4] == "1" {
 			item += ".SILENT"
 		}
-		return run(fmt.Sprintf("%sSTORE %s %s %s", c08Uid(a[0]), a[1], item, c08FlagsWire(a[3])))
+		return run(fmt.Sprintf("%s%s %s %s %s", sp.uid(a[0]), sp.w("STORE"), a[1], item, c08FlagsWire(a[3])))
 	case "E":
-		return run("EXPUNGE")
+		return run(sp.w("EXPUNGE"))
 	case "X":
-		return run("UID EXPUNGE " + a[0])
+		return run(sp.w("UID") + " " + sp.w("EXPUNGE") + " " + a[0])
 	case "Y", "M":
 		r.noteStar(c, a[0], a[1])
 		name := "COPY"
 		if kind == "M" {
 			name = "MOVE"
 		}
-		return run(fmt.Sprintf("%s%s %s %s", c08Uid(a[0]), name, a[1], mb(a[2])))
+		return run(fmt.Sprintf("%s%s %s %s", sp.uid(a[0]), sp.w(name), a[1], mb(a[2])))
 	case "F":
 		r.noteStar(c, a[0], a[1])
 		var items []string
@@ -231,7 +284,7 @@ func (r *c08Run) exec(tok string) string {
 		if len(items) == 0 {
 			items = append(items, "UID")
 		}
-		return run(fmt.Sprintf("%sFETCH %s (%s)", c08Uid(a[0]), a[1], strings.Join(items, " ")))
+		return run(fmt.Sprintf("%s%s %s (%s)", sp.uid(a[0]), sp.w("FETCH"), a[1], strings.Join(items, " ")))
 	case "Q":
 		if a[1] != "-" {
 			r.noteStar(c, a[0], a[1])
@@ -258,14 +311,14 @@ func (r *c08Run) exec(tok string) string {
 		}
 		ret := ""
 		if a[5] == "1" {
-			ret = "RETURN (MIN MAX ALL COUNT) "
+			ret = sp.w("RETURN") + " (MIN MAX ALL COUNT) "
 		}
-		return run(fmt.Sprintf("%sSEARCH %s%s", c08Uid(a[0]), ret, strings.Join(keys, " ")))
+		return run(fmt.Sprintf("%s%s %s%s", sp.uid(a[0]), sp.w("SEARCH"), ret, strings.Join(keys, " ")))
 	case "N":
-		return run("NOOP")
+		return run(sp.w("NOOP"))
 	case "I":
 		tag := r.env.tag()
-		rc.send(tag + " IDLE\r\n")
+		rc.send(tag + " " + sp.w("IDLE") + "\r\n")
 		l, err := msReadLine(rc)
 		if err != nil {
 			return "PANIC"
@@ -285,8 +338,8 @@ func (r *c08Run) exec(tok string) string {
 		if r.sel[c] < 0 {
 			return "-"
 		}
-		o1 := run("NOOP")
-		o2 := run("UID FETCH 1:* (UID)")
+		o1 := run(sp.w("NOOP"))
+		o2 := run(sp.w("UID") + " " + sp.w("FETCH") + " 1:* (UID)")
 		return o1 + "~" + o2 + "~" + r.actual(r.sel[c])
 	}
 	return "?"
